@@ -722,7 +722,11 @@ func (c *compiler) compile(tok *token) []instruction {
 		}
 		res = append(res, c.compileAll(tok.Tokens[callArguments].Tokens)...)
 		if slices.Contains([]string{"byte", "uint8", "int8", "int", "int32", "rune", "uint32", "uint", "int64", "uint64", "int16", "uint16", "float64", "string", "[]"}, tok.Tokens[callName].Symbol) {
-			res = append(res, instruction{Code: codeConvert, A: reg(convMap[tok.Tokens[callName].Symbol])})
+			typ := convMap[tok.Tokens[callName].Symbol]
+			if tok.Tokens[callName].Symbol == "[]" { // []float64(nil) is a nil []float64: what is appended to it becomes float64
+				typ = typeFromToken(c, tok.Tokens[callName])
+			}
+			res = append(res, instruction{Code: codeConvert, A: reg(typ)})
 		} else if code := builtinMap[tok.Tokens[callName].Text]; code != 0 && !(tok.Tokens[callName].Symbol == "(name)" && c.Locals.Exists(tok.Tokens[callName].Text)) { // a local named len, append, ... shadows the builtin
 			ellipsis := 0
 			args := tok.Tokens[callArguments].Tokens
